@@ -370,7 +370,7 @@ class Crate:
             return self.impl_cache[key]
         if rel not in self.files:
             return None
-        txt = self.span_text(rel, l1, c1, l2, c2)
+        txt = ' '.join(self.span_text(rel, l1, c1, l2, c2).split())
         info = None
         m = re.match(r'^\s*(unsafe\s+)?impl\b', txt)
         if m:
@@ -435,7 +435,7 @@ def _last_seg(ty):
             depth -= 1
         elif depth == 0:
             out += c
-    out = out.split(' where ')[0].strip()
+    out = re.split(r'\bwhere\b', out)[0].strip()
     return out.split('::')[-1].strip()
 
 
